@@ -39,6 +39,36 @@ theorem commute (g g' : Node) (τ : String → List Int × List Int)
   obtain ⟨n', hn', h1', h2'⟩ := t2 k n0' hk'
   exact ⟨n, n', hn, hn', by rw [h1, h1'], by rw [h2, h2'], s1, s2⟩
 
+/-- the hypotheses of `C08.restore_keyed`, bundled: every node is an Input, an Output, an
+annotated primitive, or a Flatten / Conv1d / Conv2d / pooling node whose types are erased -/
+structure InferableK (g : Node) (τ : String → List Int × List Int) : Prop where
+  keys : (g.children.map Prod.fst).Nodup
+  flat : FlatEdges g
+  leaf : ∀ k n, lookup k g.children = some n → n.isKind "NIRGraph" = false
+  hasInput : (graphInputs g).isEmpty = false
+  reach : ∀ k n, lookup k g.children = some n →
+    n.isKind "Input" = true ∨ Reach g.edges ((graphInputs g).map Prod.fst) k
+  nodes : ∀ k n, lookup k g.children = some n → C08.NodeOKK n (τ k)
+  sources : ∀ k n, lookup k g.children = some n → n.isKind "Input" = true → HasTypesK n (τ k)
+  consistent : ∀ e ∈ g.edges, (τ e.1).2 = (τ e.2).1
+
+/-- **Commutation, with the edge-local condition discharged**: whatever subset of the erasable
+annotations (Output shapes, input sides, Flatten output, Conv1d/Conv2d types, pooling types —
+the last never survive a file round trip) is erased in `g` and whatever *other* subset in `g'`,
+inferring either gives every node the types `τ`. -/
+theorem commute_keyed (g g' : Node) (τ : String → List Int × List Int)
+    (hg : InferableK g τ) (hg' : InferableK g' τ) (k : String) (n0 n0' : Node)
+    (hk : lookup k g.children = some n0) (hk' : lookup k g'.children = some n0') :
+    ∃ n n', lookup k (inferTypes g).1.children = some n ∧ lookup k (inferTypes g').1.children = some n' ∧
+      HasTypesK n (τ k) ∧ HasTypesK n' (τ k) ∧
+      (inferTypes g).2 = none ∧ (inferTypes g').2 = none ∧
+      checkTypes (inferTypes g).1 = .ok true ∧ checkTypes (inferTypes g').1 = .ok true := by
+  obtain ⟨s1, t1, c1⟩ := C08.restore_keyed g τ hg.keys hg.flat hg.leaf hg.hasInput hg.reach hg.nodes hg.sources hg.consistent
+  obtain ⟨s2, t2, c2⟩ := C08.restore_keyed g' τ hg'.keys hg'.flat hg'.leaf hg'.hasInput hg'.reach hg'.nodes hg'.sources hg'.consistent
+  obtain ⟨n, hn, h1⟩ := t1 k n0 hk
+  obtain ⟨n', hn', h1'⟩ := t2 k n0' hk'
+  exact ⟨n, n', hn, hn', h1, h1', s1, s2, c1, c2⟩
+
 /-- an already inferred graph is a fixed point: a further inference is the identity (so after
 a round trip at most the types the file does not carry have to be regained) -/
 theorem inferred_is_stable (g : Node) (hin : (graphInputs g).isEmpty = false)
